@@ -64,6 +64,9 @@ Init0(props) ==
     runNo   |-> 0,           \* number of run() calls so far
     rstack  |-> << >>,       \* saved state of outer run() calls (run() re-entered from an idle item)
     applied |-> TRUE,        \* has this run's instant taken effect yet? (it does after the idle item)
+    argdrop |-> {},          \* Rets whose fixed arguments (ret_to!/ret_some_to!) have been released
+    preTop  |-> {},          \* items that existed when the current top-level item started executing
+    mustDrop|-> {},          \* (after a caught panic) items the panicking top-level item had submitted: still the Stakker's
     oldgen  |-> {},          \* actors of an earlier Stakker of this case (see "renewed")
     boomed  |-> FALSE,       \* a panic made by user code inside run() was caught by the caller
     panicked|-> FALSE
@@ -343,6 +346,7 @@ ApplyX(st00, e) ==
                         st.actors[it.aid].held[1].k = "call"),
                     "C02", "held Prep-time calls not flushed first, in order, on becoming Ready")
       mark(s) == [s EXCEPT !.items[id].s = "x", !.depth = @ + 1,
+                           !.preTop = IF st.depth = 0 THEN DOMAIN st.items ELSE @,
                            !.actors = IF isCall /\ Has(s.actors, it.aid)
                                       THEN [s.actors EXCEPT ![it.aid].running = @ + 1] ELSE s.actors]
   IN
@@ -835,7 +839,9 @@ ApplyEnd(st) ==
                       : aid \in DOMAIN st.actors }
       ibad == B(\E i \in DOMAIN st.items : i \notin st.tokdrop /\ st.items[i].q # "void",
                 "C16", "closure captures / message never dropped")
-  IN R(st, rbad \cup abad \cup ibad \cup B(st.expcb # << >>, "C05", "Ret handler not invoked at the moment of ret()/drop"))
+      gbad == B(\E rid \in DOMAIN st.rets : st.rets[rid].kind \notin {"plain", "somedo"} /\ rid \notin st.argdrop,
+                "C05", "closure / fixed arguments behind a ret_to!-style Ret never released")
+  IN R(st, gbad \cup rbad \cup abad \cup ibad \cup B(st.expcb # << >>, "C05", "Ret handler not invoked at the moment of ret()/drop"))
 
 \* After a caught user panic the run was abandoned half-way: nothing is promised about
 \* what still runs, but no value may be dropped twice and no closure may run twice.
@@ -853,9 +859,17 @@ ApplyBoomed(st, e) ==
          R([st EXCEPT !.items[e.item].s = "x"],
            B(st.items[e.item].s # "p", "C16", "closure executed twice / after being dropped (after a caught panic)"))
     [] e.e = "corrupt" -> R(st, {<<"C16", "captured data corrupted or misaligned">>})
+    [] e.e = "droppedstakker" ->
+         LET left == {i \in st.mustDrop : i \notin st.tokdrop} IN
+         R([st EXCEPT !.mustDrop = {}],
+           B(left # {}, "C01", "closure submitted by the item that panicked was not dropped when the Stakker was dropped")
+           \cup B(left # {}, "C16", "closure submitted by the item that panicked was not released when the Stakker was dropped")
+           \cup B(\E i \in left : st.items[i].hr # {}, "C05", "Ret held by a closure pending at Stakker drop (after a caught panic) was not invoked with None"))
     \* a Ret dropped while the panic unwinds (or afterwards) still reports None, there and then
     [] e.e = "retdrop" -> ApplyRetDrop(st, e)
     [] e.e = "retcb" -> ApplyRetCb(st, e)
+    [] e.e = "argdrop" ->
+         R([st EXCEPT !.argdrop = @ \cup {e.rid}], B(e.rid \in st.argdrop, "C16", "fixed argument of a Ret released twice"))
     [] e.e = "end" -> R(st, IF st.panicked THEN {} ELSE
                             B(st.expcb # << >>, "C05", "Ret dropped by an unwinding panic did not report None"))
     [] e.e = "panic" ->
@@ -904,7 +918,12 @@ Apply1(st, e) ==
          R([st EXCEPT !.draining = FALSE],
            B(st.drainB < 0, "C09", "follow-next_expiry loop needed more iterations than the bound")
            \cup B(Unfired(st) # {}, "C09", "follow-next_expiry loop did not fire every pending timer"))
-    [] e.e = "boom" -> R([st EXCEPT !.boomed = TRUE], {})
+    [] e.e = "boom" ->
+         \* what the panicking top-level item (and everything nested in it) had submitted so far went to the live
+         \* queues, not to the batch being executed: the Stakker still owns it and must release it when dropped
+         R([st EXCEPT !.boomed = TRUE,
+                      !.mustDrop = {i \in DOMAIN st.items \ st.preTop :
+                                      st.items[i].s = "p" /\ st.items[i].q \in {"main", "lazy", "idle", "timer"} /\ st.items[i].aid = 0}], {})
     [] e.e = "renewed" ->
          \* a new Stakker on the same thread, after the previous one was dropped and every handle
          \* released: Stakker::new released what was stranded; nothing of it is pending any more
@@ -914,12 +933,15 @@ Apply1(st, e) ==
              olditems == [i \in DOMAIN st.items |-> IF st.items[i].s = "p" THEN [st.items[i] EXCEPT !.q = "void"] ELSE st.items[i]]
          IN R([fresh EXCEPT !.alive = "live", !.items = olditems, !.tokdrop = st.tokdrop,
                             !.actors = [a \in DOMAIN st.actors |-> [st.actors[a] EXCEPT !.held = << >>]],
-                            !.rets = st.rets, !.fwds = st.fwds, !.oldgen = DOMAIN st.actors],
+                            !.rets = st.rets, !.fwds = st.fwds, !.oldgen = DOMAIN st.actors, !.argdrop = st.argdrop],
               \* (whether what was deferred after the drop has been released by now depends on the Deferrer
               \*  implementation: documented exclusion; what matters is that none of it ever runs)
               {})
     [] e.e = "startinst" -> R(st, B(e.t # <<0, 0>>, "C15", "start_instant() changed"))
     [] e.e = "corrupt" -> R(st, {<<"C01", "captured data corrupted or misaligned">>, <<"C16", "captured data corrupted or misaligned">>, <<"C17", "captured data corrupted or misaligned">>})
+    [] e.e = "argdrop" ->
+         R([st EXCEPT !.argdrop = @ \cup {e.rid}],
+           B(e.rid \in st.argdrop, "C16", "fixed argument of a Ret released twice"))
     [] e.e = "argswap" -> R(st, {<<"C02", "a call / forwarded message arrived with other arguments than it was made with">>,
                                    <<"C05", "a call / forwarded message arrived with other arguments than it was made with">>})
     [] e.e = "reenter" -> R(st, {<<"C03", "actor method re-entered">>})
